@@ -85,9 +85,22 @@ type vPacketConn struct {
 	onEnd  func()
 	writes [][]byte
 	closed bool
+	bufs   [][]byte // every buffer ReadFrom was handed (the server's pooled receive buffers)
+}
+
+// scribbleOne overwrites the k-th receive buffer handed to ReadFrom with the given octets (repeated): once the
+// server has put a buffer back into its pool anybody may write to it.
+func (c *vPacketConn) scribbleOne(k int, pattern []byte) {
+	if k < len(c.bufs) {
+		b := c.bufs[k]
+		for i := range b {
+			b[i] = pattern[i%len(pattern)]
+		}
+	}
 }
 
 func (c *vPacketConn) ReadFrom(p []byte) (int, net.Addr, error) {
+	c.bufs = append(c.bufs, p)
 	if c.pos >= len(c.in) {
 		if c.onEnd != nil {
 			c.onEnd()
